@@ -99,16 +99,77 @@ def gen_raw_child(rng, depth):
     return [6, [t() for _ in range(rng.choice([0, 1, 2]))]]
 
 
-def gen_view(rng, depth, keyed=False, static=True):
-    kinds = ["text", "text", "unit", "el", "num", "sstr"]
+N_PRIM = 33
+N_INERT = 4
+
+
+def prim_text(kind, d):
+    """what the primitive built by harness/dom/src/c03.rs `prim(kind, d)` displays"""
+    if kind <= 5:
+        return str(d)
+    if kind <= 10:
+        return str(-d)
+    if kind == 11:
+        return "%d.5" % d
+    if kind == 12:
+        return "%d.25" % d
+    if kind == 13:
+        return chr(97 + d)
+    if kind == 14:
+        return "true" if d % 2 else "false"
+    if kind in (15, 17):
+        return "127.0.0.%d" % d
+    if kind == 16:
+        return "::%x" % (d + 1)
+    if kind == 18:
+        return "127.0.0.%d:80" % d
+    if kind == 19:
+        return "[::%x]:80" % (d + 1)
+    if kind == 20:
+        return "127.0.0.%d:81" % d
+    if kind == 22:
+        return str(-d - 1)
+    return str(d + 1)
+
+
+def gen_prim(rng, kind=None):
+    kind = rng.randrange(N_PRIM) if kind is None else kind
+    d = rng.randint(0, 9)
+    return [14, kind, d, prim_text(kind, d)]
+
+
+def gen_view(rng, depth, keyed=False, static=True, plain=False):
+    """plain: no class:on toggle and no node-less view below (used inside EitherKeepAlive, whose hidden side keeps its
+    state across several updates, so that the syntactic known-finding classes stay decidable)"""
+    kinds = ["text", "text", "unit", "el", "num", "sstr", "text2", "prim"]
     if depth > 0:
-        kinds += ["el", "tuple", "either", "either3", "opt", "vec", "vec", "array"]
-        if static:
+        kinds += ["el", "tuple", "either", "either3", "opt", "vec", "vec", "array", "tuple1", "bigtuple", "eitherN", "result"]
+        if getattr(rng, "extra", True):
+            # the views without a model (their cases are judged by the oracle only): in one case of seven
+            kinds += ["inert", "inert"]
+        if static and not plain:
             kinds += ["static"]
         if keyed:
             kinds += ["keyed"]
     k = rng.choice(kinds)
-    sub = lambda: gen_view(rng, depth - 1, keyed, static)
+    static = static and not plain
+    sub = lambda: gen_view(rng, depth - 1, keyed, static, plain)
+    if k == "text2":
+        return [13, rng.randint(0, 2), rng.choice(TEXTS)]
+    if k == "prim":
+        return gen_prim(rng)
+    if k == "tuple1":
+        return [15, sub()]
+    if k == "bigtuple":
+        return [3, [gen_view(rng, min(depth - 1, 1), keyed, static, plain) for _ in range(rng.randint(4, 8))]]
+    if k == "eitherN":
+        n = rng.choice([4, 5, 8, 16])
+        return [16, n, rng.randint(0, 3 if n != 5 else 4), sub()]
+    if k == "result":
+        return [17, [sub()] if rng.random() < 0.65 else []]
+    if k == "inert":
+        return [19, rng.randrange(N_INERT)]
+
     if k == "text":
         return [0, rng.choice(TEXTS)]
     if k == "unit":
@@ -123,10 +184,13 @@ def gen_view(rng, depth, keyed=False, static=True):
         return [12, [sub() for _ in range(rng.choice([0, 1, 2, 2, 3]) if static else rng.choice([1, 2, 2, 3]))]]
     if k == "el":
         tag = gen_tag(rng)
+        attrs = gen_attrs(rng)
+        if plain:
+            attrs[3] = 0
         if tag >= 3 and rng.random() < 0.7:
-            return [2, tag, gen_attrs(rng), gen_raw_child(rng, depth)]
+            return [2, tag, attrs, gen_raw_child(rng, depth)]
         child = sub() if depth > 0 else rng.choice([[0, rng.choice(TEXTS)], [1]])
-        return [2, tag, gen_attrs(rng), child]
+        return [2, tag, attrs, child]
     if k == "tuple":
         return [3, [sub() for _ in range(rng.choice([2, 2, 3]))]]
     if k == "either":
@@ -148,14 +212,30 @@ def keyed_child(key):
     return [[0, t], [2, 0, [[], 0, "a", 0, "red"], [0, t]], [3, [[0, "k"], [0, t]]], [6, [[0, t]] * (key % 3)]][key % 4]
 
 
-def mutate(rng, v, depth, keyed, static):
+def mutate(rng, v, depth, keyed, static, plain=False):
     """a value close to v: same shape at the root most of the time"""
     r = rng.random()
-    sub = lambda x: mutate(rng, x, depth - 1, keyed, static)
-    fresh = lambda: gen_view(rng, max(depth - 1, 0), keyed, static)
+    sub = lambda x: mutate(rng, x, depth - 1, keyed, static, plain)
+    fresh = lambda: gen_view(rng, max(depth - 1, 0), keyed, static, plain)
     if r < 0.12:
-        return gen_view(rng, depth, keyed, static)          # anything (shape change likely)
+        return gen_view(rng, depth, keyed, static, plain)          # anything (shape change likely)
     t = v[0]
+    if t == 13:
+        return [13, v[1] if rng.random() < 0.9 else rng.randint(0, 2), rng.choice(TEXTS)]
+    if t == 14:
+        return gen_prim(rng, v[1])
+    if t == 15:
+        return [15, sub(v[1])]
+    if t == 16:
+        return [16, v[1], v[2] if rng.random() < 0.5 else rng.randint(0, 3), sub(v[3])]
+    if t == 17:
+        if v[1] and rng.random() < 0.6:
+            return [17, [sub(v[1][0])]]
+        return [17, [fresh()] if rng.random() < 0.5 else []]
+    if t == 19:
+        return [19, rng.randrange(N_INERT)]
+    if t == 18:
+        return gen_view(rng, depth, keyed, static, plain)      # EitherKeepAlive only comes from gen_eka_case
     if t == 0:
         return [0, rng.choice(TEXTS)]
     if t == 1:
@@ -173,6 +253,8 @@ def mutate(rng, v, depth, keyed, static):
         for _ in range(rng.choice([0, 1, 1, 2])):
             i = rng.randrange(5)
             a[i] = gen_attrs(rng)[i]
+        if plain:
+            a[3] = 0
         tag = v[1] if rng.random() < 0.85 else gen_tag(rng)
         return [2, tag, a, sub(v[3])]
     if t == 3:
@@ -209,9 +291,25 @@ def mutate(rng, v, depth, keyed, static):
     return [8, items]
 
 
+def children_of(v):
+    """the sub-views of the new codes 15-18"""
+    t = v[0]
+    if t == 15:
+        return [v[1]]
+    if t == 16:
+        return [v[3]]
+    if t == 17:
+        return list(v[1])
+    if t == 18:
+        return list(v[2]) + list(v[3]) + list(v[4]) + list(v[5])
+    return []
+
+
 def has(v, code):
     if v[0] == code:
         return True
+    if v[0] in (15, 16, 17, 18):
+        return any(has(x, code) for x in children_of(v))
     if v[0] == 2:
         return has(v[3], code)
     if v[0] in (3, 6, 7, 12):
@@ -227,6 +325,8 @@ def has(v, code):
 
 def has_raw(v):
     """contains a raw-text element (textarea / style / script / noscript)"""
+    if v[0] in (15, 16, 17, 18):
+        return any(has_raw(x) for x in children_of(v))
     if v[0] == 2:
         return v[1] >= 3 or has_raw(v[3])
     if v[0] in (3, 6, 7, 12):
@@ -244,6 +344,8 @@ def nodeless(v):
     """contains a view that may own no DOM node: a StaticVec / Fragment, or an empty array"""
     if v[0] == 7 or (v[0] == 12 and not v[1]):
         return True
+    if v[0] in (15, 16, 17, 18):
+        return any(nodeless(x) for x in children_of(v))
     if v[0] == 2:
         return nodeless(v[3])
     if v[0] in (3, 6, 12):
@@ -257,14 +359,122 @@ def nodeless(v):
     return False
 
 
+# ------------------------------------------------------------------------ EitherKeepAlive (oracle only)
+# a side that already has a state and is hidden when the rebuild starts may be given a new value too (the state is
+# rebuilt while it is not mounted; F-C03-d, fixed: a Vec that grows while unmounted panicked)
+EKA_HIDDEN_REBUILD = True
+
+
+def eka_wrap(path, e, fill):
+    """put the EitherKeepAlive value e at a stable position: root, member of a fixed-arity tuple, child of an element"""
+    for kind, arg in reversed(path):
+        if kind == "tuple":
+            i, others = arg
+            e = [3, others[:i] + [e] + others[i:]]
+        elif kind == "el":
+            tag, attrs = arg
+            e = [2, tag, attrs, e]
+        else:
+            e = [15, e]
+    return e
+
+
+def gen_eka_case(rng, depth):
+    """a history of EitherKeepAlive values at one stable position.  tachys: a side given as None means "no change";
+    the side that is shown must exist (have been given a value at some point)"""
+    rng.extra = False
+    g = lambda: gen_view(rng, rng.randint(0, max(depth - 1, 0)), False, False, True)
+    path = []
+    for _ in range(rng.choice([0, 0, 1, 1, 2])):
+        r = rng.random()
+        if r < 0.5:
+            others = [g() for _ in range(rng.choice([1, 2]))]
+            path.append(("tuple", (rng.randint(0, len(others)), others)))
+        elif r < 0.85:
+            a = gen_attrs(rng)
+            a[3] = 0
+            path.append(("el", (rng.randint(0, 2), a)))
+        else:
+            path.append(("tuple1", None))
+    shown = rng.randint(0, 1)
+    cur = [None, None]
+    cur[shown] = g()
+    if rng.random() < 0.6:
+        cur[1 - shown] = g()
+    vals = []
+
+    def emit(given):
+        vals.append(eka_wrap(path, [18, shown, [given[0]] if given[0] is not None else [], [given[1]] if given[1] is not None else [],
+                                    [cur[0]] if cur[0] is not None else [], [cur[1]] if cur[1] is not None else []], None))
+    emit(list(cur))
+    for _ in range(rng.choice([1, 2, 3, 4, 5])):
+        new_shown = shown if rng.random() < 0.5 else 1 - shown
+        given = [None, None]
+        for x in (0, 1):
+            if cur[x] is None:
+                if new_shown == x or rng.random() < 0.3:
+                    given[x] = g()                       # first build of this side
+            elif (x == shown or EKA_HIDDEN_REBUILD) and rng.random() < 0.6:
+                given[x] = mutate(rng, cur[x], depth, False, False, True) if rng.random() < 0.8 else g()
+        for x in (0, 1):
+            if given[x] is not None:
+                cur[x] = given[x]
+        shown = new_shown
+        emit(given)
+    npre, npost = rng.choice([(0, 0), (1, 1), (0, 1), (1, 0), (2, 2), (0, 2)])
+    return dict(case=C.norm([npre, npost, vals[0], vals[1:]]), kind="EitherKeepAlive (oracle only)", compare=False)
+
+
+def eka_chains_ok(vals):
+    """EitherKeepAlive only at stable positions, and every run of EitherKeepAlive values obeys the rules of gen_eka_case"""
+    if not any(has(v, 18) for v in vals):
+        return True
+    t = vals[0][0]
+    if all(v[0] == t for v in vals):
+        if t == 3 and len({len(v[1]) for v in vals}) == 1:
+            return all(eka_chains_ok([v[1][i] for v in vals]) for i in range(len(vals[0][1])))
+        if t == 2 and len({v[1] for v in vals}) == 1:
+            return eka_chains_ok([v[3] for v in vals])
+        if t == 15:
+            return eka_chains_ok([v[1] for v in vals])
+    built, cur, shown, prev_was = set(), [None, None], None, False
+    for v in vals:
+        if v[0] != 18:
+            if has(v, 18):
+                return False
+            prev_was = False
+            continue
+        if any(has(x, 18) for x in children_of(v)):
+            return False
+        if not prev_was:
+            built, cur, shown = set(), [None, None], None
+        for x in (0, 1):
+            given = v[2 + x]
+            if given:
+                if x in built and x != shown and not EKA_HIDDEN_REBUILD:
+                    return False            # a hidden state is not rebuilt
+                built.add(x)
+                cur[x] = given[0]
+            if (v[4 + x][0] if v[4 + x] else None) != cur[x]:
+                return False                # the recorded "value held" must be the last value given
+        if v[1] not in built:
+            return False
+        shown, prev_was = v[1], True
+    return True
+
+
 def generate(rng, tier):
     n = 20000 if tier == "quick" else 200000
     depth = 4 if tier == "quick" else 5
     for i in range(n):
+        if i % 25 == 7:
+            yield gen_eka_case(rng, rng.randint(1, 3))
+            continue
         r = rng.random()
         keyed = r < 0.12
         static = r < 0.30
         d = rng.randint(1, depth)
+        rng.extra = rng.random() < 0.15
         v0 = gen_view(rng, d, keyed, static)
         vs = []
         cur = v0
@@ -274,7 +484,10 @@ def generate(rng, tier):
         npre, npost = rng.choice([(0, 0), (1, 1), (0, 1), (1, 0), (2, 2), (0, 2)])
         uses_keyed = any(has(v, 8) for v in [v0] + vs)
         kind = "with-keyed" if uses_keyed else ("with-staticvec" if any(nodeless(v) for v in [v0] + vs) else "core")
-        yield dict(case=C.norm([npre, npost, v0, vs]), kind=kind, compare=True)
+        oracle_only = any(has(v, 19) for v in [v0] + vs)
+        if oracle_only:
+            kind += " +InertElement (oracle only)"
+        yield dict(case=C.norm([npre, npost, v0, vs]), kind=kind, compare=not oracle_only)
 
 
 def valid_view(v, depth=0):
@@ -301,7 +514,24 @@ def valid_view(v, depth=0):
                     and a[1] in (0, 1) and _bytes(a[2]) and _class_ok(a[2]) and a[3] in (0, 1) and _bytes(a[4]) and len(a[4]) > 0
                     and valid_view(v[3], depth + 1))
         if t == 3:
-            return len(v) == 2 and len(v[1]) in (2, 3) and all(valid_view(x, depth + 1) for x in v[1])
+            return len(v) == 2 and 2 <= len(v[1]) <= 8 and all(valid_view(x, depth + 1) for x in v[1])
+        if t == 13:
+            return len(v) == 3 and v[1] in (0, 1, 2) and _bytes(v[2])
+        if t == 14:
+            return (len(v) == 4 and isinstance(v[1], int) and 0 <= v[1] < N_PRIM and isinstance(v[2], int) and 0 <= v[2] <= 9
+                    and v[3] == list(prim_text(v[1], v[2]).encode()))
+        if t == 15:
+            return len(v) == 2 and valid_view(v[1], depth + 1)
+        if t == 16:
+            return (len(v) == 4 and v[1] in (4, 5, 8, 16) and isinstance(v[2], int) and 0 <= v[2] <= (4 if v[1] == 5 else 3)
+                    and valid_view(v[3], depth + 1))
+        if t == 17:
+            return len(v) == 2 and isinstance(v[1], list) and len(v[1]) <= 1 and all(valid_view(x, depth + 1) for x in v[1])
+        if t == 18:
+            return (len(v) == 6 and v[1] in (0, 1) and all(isinstance(x, list) and len(x) <= 1 for x in v[2:])
+                    and all(valid_view(x, depth + 1) and plain_view(x) for x in v[2] + v[3] + v[4] + v[5]))
+        if t == 19:
+            return len(v) == 2 and isinstance(v[1], int) and 0 <= v[1] < N_INERT
         if t == 4:
             return len(v) == 3 and v[1] in (0, 1) and valid_view(v[2], depth + 1)
         if t == 5:
@@ -315,6 +545,26 @@ def valid_view(v, depth=0):
     except Exception:
         return False
     return False
+
+
+def plain_view(v):
+    """no class:on toggle that is on, no node-less view, no nested EitherKeepAlive"""
+    if nodeless(v) or has(v, 18):
+        return False
+
+    def on(v):
+        if v[0] == 2:
+            return v[2][3] == 1 or on(v[3])
+        if v[0] in (3, 6, 7, 12):
+            return any(on(x) for x in v[1])
+        if v[0] in (4, 11):
+            return on(v[2])
+        if v[0] == 5:
+            return any(on(x) for x in v[1])
+        if v[0] == 8:
+            return any(on(x[1]) for x in v[1])
+        return any(on(x) for x in children_of(v))
+    return not on(v)
 
 
 def _bytes(b):
@@ -341,6 +591,10 @@ def valid_case(item):
     if not (0 <= c[0] <= 3 and 0 <= c[1] <= 3 and isinstance(c[3], list) and c[3]):
         return False
     if not valid_view(c[2]) or not all(valid_view(v) for v in c[3]):
+        return False
+    if not eka_chains_ok([c[2]] + c[3]):
+        return False
+    if item.get("compare", True) and any(has(v, 18) or has(v, 19) for v in [c[2]] + c[3]):
         return False
     return True
 
@@ -431,6 +685,12 @@ def class_edit(a, b):
     if t == 8:
         d = dict((k, x) for k, x in a[1])
         return any(k in d and class_edit(d[k], x) for k, x in b[1])
+    if t == 15:
+        return class_edit(a[1], b[1])
+    if t == 16:
+        return a[1] == b[1] and a[2] == b[2] and class_edit(a[3], b[3])
+    if t == 17:
+        return bool(a[1]) and bool(b[1]) and class_edit(a[1][0], b[1][0])
     return False
 
 
@@ -480,6 +740,21 @@ def show(v):
         return "%di32" % v[1]
     if t == 10:
         return "&" + repr(C.show_bytes(v[1]))
+    if t == 13:
+        return ["Arc<str>", "Cow::Borrowed", "Cow::Owned"][v[1]] + "(" + repr(C.show_bytes(v[2])) + ")"
+    if t == 14:
+        return "prim#%d(%s)" % (v[1], C.show_bytes(v[3]))
+    if t == 15:
+        return "(" + show(v[1]) + ",)"
+    if t == 16:
+        return "EitherOf%d::#%d(%s)" % (v[1], v[2], show(v[3]))
+    if t == 17:
+        return "Ok(" + show(v[1][0]) + ")" if v[1] else "Err"
+    if t == 18:
+        side = lambda x: "Some(" + show(x[0]) + ")" if x else "None"
+        return "EitherKeepAlive{a: %s, b: %s, show_b: %s}" % (side(v[2]), side(v[3]), bool(v[1]))
+    if t == 19:
+        return "InertElement#%d" % v[1]
     if t == 11:
         return "EitherOf3::" + "ABC"[v[1]] + "(" + show(v[2]) + ")"
     if t == 12:
@@ -516,11 +791,12 @@ def describe(item):
 def coverage_extra(results):
     shapes = {}
     names = ["text", "unit", "element", "tuple", "either", "option", "vec", "staticvec", "keyed", "i32", "static-str",
-             "eitherof3", "array"]
+             "eitherof3", "array", "arc/cow-str", "primitive", "1-tuple", "eitherofN", "result", "either-keep-alive",
+             "inert-element"]
     for r in results:
         npre, npost, v0, vs = r["item"]["case"]
         for v in [v0] + vs:
-            for code in range(13):
+            for code in range(20):
                 if has(v, code):
                     shapes[names[code]] = shapes.get(names[code], 0) + 1
             if has_raw(v):
